@@ -96,6 +96,20 @@ def variants(quick: bool) -> List[Variant]:
     out.append(Variant("dotted-head-is-a-field:local", "\n".join(L) + "\n", (("Track",), "f"), "w0", 0))
     L = ["proto p", 'import "lib.bitproto"', "message Track {"] + _enum(I, "X", "w1", "Z1") + [I + "uint8 lib = 1", I + "lib.X f = 2", "}"]
     out.append(Variant("dotted-head-is-a-field:import", "\n".join(L) + "\n", (("Track",), "f"), 9, 0, files={"lib.bitproto": "proto lib\nenum X : uint9 {\n    Z = 0\n}\n"}))
+    # ---- a message becomes visible where it CLOSES: inside its own body (and in messages nested in it) its name still means
+    # the earlier outer definition of that name
+    L = ["proto p"] + _enum("", "X", "w0", "Z0") + ["message A {", I + "message X {", I * 2 + "message D {", I * 3 + "X f = 1", I * 2 + "}", I * 2 + "X g = 2", I * 2 + "uint{U:w1pad} pad = 3".replace("uint{U:w1pad}", "{U:w1}"), I + "}", "}"]
+    out.append(Variant("own-name-inside:nested", "\n".join(L) + "\n", (("A", "X", "D"), "f"), "w0", 0))
+    out.append(Variant("own-name-inside:direct", "\n".join(L) + "\n", (("A", "X"), "g"), "w0", 0))
+    # ---- an import without `as` binds the imported file's PROTO name, whatever the file is called
+    out.append(Variant("import-binds-proto-name", "\n".join(["proto p", 'import "units_v2.bitproto"', "message A {", I + "units.X f = 1", "}"]) + "\n", (("A",), "f"), 9, 0,
+                       files={"units_v2.bitproto": "proto units\nenum X : uint9 {\n    Z = 0\n}\n"}))
+    out.append(Variant("import-binds-proto-name:by-stem-rejected", "\n".join(["proto p", 'import "units_v2.bitproto"', "message A {", I + "units_v2.X f = 1", "}"]) + "\n", (("A",), "f"), None, 4,
+                       files={"units_v2.bitproto": "proto units\nenum X : uint9 {\n    Z = 0\n}\n"}))
+    sw = {"left.bitproto": "proto right\nenum W : uint9 {\n    Z = 0\n}\n", "right.bitproto": "proto left\nenum W : uint5 {\n    Z = 0\n}\n"}
+    L = ["proto p", 'import "left.bitproto"', 'import "right.bitproto"', "message A {", I + "left.W f = 1", I + "right.W g = 2", "}"]
+    out.append(Variant("import-binds-proto-name:swapped:f", "\n".join(L) + "\n", (("A",), "f"), 5, 0, files=sw))
+    out.append(Variant("import-binds-proto-name:swapped:g", "\n".join(L) + "\n", (("A",), "g"), 9, 0, files=sw))
     # ---- file-scope alias instead of enum, use at depth 1 and 2
     for lvl1 in ("none", "before"):
         L = ["proto p", "type X = {I:w0}[2]", "message A {"]
